@@ -1,3 +1,191 @@
-import NeverModel.Model.Heap
+import NeverModel.Lemmas.InvCollect
+set_option linter.unusedSimpArgs false
+set_option linter.unusedVariables false
+/-!
+# C09 — the collector reclaims all garbage and keeps heap bookkeeping consistent
+
+Property theorems only (helper lemmas live in `NeverModel/Lemmas`).  The model is
+`NeverModel/Model/Heap.lean` (mirror of back/gc.c); it is tied to the C code by the
+correspondence check `checks/gc_corr.py` (state-for-state on seeded histories).
+
+Quantifier of the property: all finite sequences of {allocate any object kind, store a
+reference, change the root set, collect}.  `Gc.exec` runs such a sequence; the root
+set is an argument of each `collect`/`omfalos` operation, so it changes freely.
+-/
 namespace Never.C09
+open Never Mem
+
+/-- `gc_new` establishes the invariant (the C code itself needs `mem_size ≥ 2`) -/
+theorem inv_init (n : Nat) (h : 2 ≤ n) : Inv (Gc.new n) := inv_new n h
+
+/-- every well-typed operation preserves the invariant -/
+theorem inv_step {g g' : Gc} {op : Op} (inv : Inv g) (wt : g.wellTyped op = true)
+    (h : g.apply op = some g') : Inv g' := by
+  obtain ⟨fl, il⟩ := inv
+  cases op with
+  | alloc o =>
+    simp only [Gc.apply] at h
+    simp only [Gc.wellTyped] at wt
+    cases ha : g.alloc o with
+    | none => simp [ha] at h; subst h; exact ⟨fl, il⟩
+    | some r =>
+      obtain ⟨g1, loc⟩ := r
+      simp [ha] at h; subst h
+      obtain ⟨fl', _, i', _⟩ := inv_alloc il wt ha
+      exact ⟨fl', i'⟩
+  | setVec a i v => exact ⟨fl, inv_setVec il (by simpa [Gc.wellTyped] using wt) h⟩
+  | setArr a i v => exact ⟨fl, inv_setArrElem il (by simpa [Gc.wellTyped] using wt) h⟩
+  | append a v => exact ⟨fl, inv_appendArrElem il (by simpa [Gc.wellTyped] using wt) h⟩
+  | setFuncVec a v => exact ⟨fl, inv_setFuncVec il (by simpa [Gc.wellTyped] using wt) h⟩
+  | setVecRef a v => exact ⟨fl, inv_setVecRef il (by simpa [Gc.wellTyped] using wt) h⟩
+  | setArrRef a v => exact ⟨fl, inv_setArrRef il (by simpa [Gc.wellTyped] using wt) h⟩
+  | setStrRef a v => exact ⟨fl, inv_setStringRef il (by simpa [Gc.wellTyped] using wt) h⟩
+  | collect st gp =>
+    simp only [Gc.wellTyped, Bool.and_eq_true, decide_eq_true_eq] at wt
+    obtain ⟨g2, h2, _, i2, _⟩ := collect_spec il wt.1 wt.2
+    simp only [Gc.apply] at h
+    rw [h2] at h; cases h; exact i2
+  | omfalos st =>
+    simp only [Gc.wellTyped] at wt
+    have hpos : 0 < g.mem.size := by have := il.count; omega
+    obtain ⟨g2, h2, _, i2, _⟩ := collect_spec (gp := 0) il wt hpos
+    simp only [Gc.apply, runOmfalos_eq] at h
+    rw [h2] at h; cases h; exact i2
+
+/-- **the invariant holds after every history** (all op sequences, all lengths) -/
+theorem inv_history (n : Nat) (h : 2 ≤ n) (ops : List Op) : Inv ((Gc.new n).exec ops) := by
+  suffices ∀ g, Inv g → Inv (g.exec ops) from this _ (inv_init n h)
+  induction ops with
+  | nil => intro g i; exact i
+  | cons op ops ih =>
+    intro g i
+    simp only [Gc.exec]
+    split
+    · rename_i wt
+      split
+      · rename_i g' h'; exact ih _ (inv_step i wt h')
+      · exact ih _ i
+    · exact ih _ i
+
+/-- a collection on a consistent heap is always defined: the marking recursion ends, no
+NULL / foreign object is read (fuel `2·cells+3` is enough) -/
+theorem collect_defined {g : Gc} {st : List Slot} {gp : Nat} (inv : Inv g)
+    (wt : g.wellTyped (.collect st gp) = true) : (g.collect st gp).isSome = true := by
+  obtain ⟨fl, il⟩ := inv
+  simp only [Gc.wellTyped, Bool.and_eq_true, decide_eq_true_eq] at wt
+  obtain ⟨g2, h2, _⟩ := collect_spec il wt.1 wt.2
+  simp [h2]
+
+/-- **after any collection exactly the cells reachable from the roots stay allocated**:
+every unreachable cell is free again, every reachable one is kept, bit-identical,
+and the survivors keep their list order -/
+theorem collect_exact {g g' : Gc} {st : List Slot} {gp : Nat} (inv : Inv g)
+    (wt : g.wellTyped (.collect st gp) = true) (h : g.collect st gp = some g') :
+    Inv g' ∧
+    (∀ x, (objAt g'.mem x).isSome = true ↔ Live g.mem (allRoots st gp) x) ∧
+    (∀ x, Live g.mem (allRoots st gp) x → objAt g'.mem x = objAt g.mem x) ∧
+    (∀ x, x ∈ g'.cur ↔ x ∈ g.cur ∧ Live g.mem (allRoots st gp) x) := by
+  obtain ⟨fl, il⟩ := inv
+  simp only [Gc.wellTyped, Bool.and_eq_true, decide_eq_true_eq] at wt
+  obtain ⟨g2, h2, _, i2, e2, k2, c2, _⟩ := collect_spec il wt.1 wt.2
+  rw [h2] at h; cases h
+  exact ⟨i2, e2, k2, c2⟩
+
+/-- each heap cell is in exactly one place: on the free chain or on the allocated list -/
+theorem partition {g : Gc} (inv : Inv g) :
+    ∃ fl, Chain g.mem g.free fl ∧ fl.Nodup ∧ g.cur.Nodup ∧
+      ∀ x, 0 < x → x < g.mem.size → (x ∈ fl ∨ x ∈ g.cur) ∧ ¬ (x ∈ fl ∧ x ∈ g.cur) := by
+  obtain ⟨fl, il⟩ := inv
+  refine ⟨fl, il.chain, il.fl_nodup, il.cur_nodup, fun x h0 hx => ⟨il.cover x h0 hx, ?_⟩⟩
+  rintro ⟨h1, h2⟩
+  have := (il.cur_alloc x).mp h2
+  rw [il.fl_free x h1] at this; cases this
+
+/-- a cell is never handed out while in use, and nil is never handed out -/
+theorem alloc_fresh {g g' : Gc} {o : Obj} {loc : Nat} (inv : Inv g) (wt : g.wellTyped (.alloc o) = true)
+    (h : g.alloc o = some (g', loc)) :
+    loc ≠ 0 ∧ objAt g.mem loc = none ∧ loc ∉ g.cur ∧ g'.cur = g.cur ++ [loc] ∧ objAt g'.mem loc = some o := by
+  obtain ⟨fl, il⟩ := inv
+  obtain ⟨fl', hfl, i', hnone, h0, hmem, hcur⟩ := inv_alloc il (by simpa [Gc.wellTyped] using wt) h
+  refine ⟨h0, hnone, ?_, hcur, ?_⟩
+  · intro hc; have := (il.cur_alloc loc).mp hc; rw [hnone] at this; cases this
+  · rw [hmem, objAt_setObj]
+    have : loc < g.mem.size := by
+      have := il.chain; rw [hfl] at this; exact this.2.2.1
+    simp [this]
+
+/-- "out of memory" is reported exactly when every cell is in use: none is lost -/
+theorem oom_iff_full {g : Gc} (o : Obj) (inv : Inv g) :
+    g.alloc o = none ↔ g.cur.length + 1 = g.mem.size := by
+  obtain ⟨fl, il⟩ := inv
+  have hc := il.count
+  unfold Gc.alloc
+  simp only
+  constructor
+  · intro h
+    split at h
+    · rename_i hf
+      cases fl with
+      | nil => simpa using hc
+      | cons x xs => have := il.chain; simp [Chain] at this; omega
+    · cases h
+  · intro h
+    have : fl = [] := by cases fl with | nil => rfl | cons x xs => simp at hc; omega
+    subst this
+    have := il.chain; simp [Chain] at this
+    simp [this]
+
+/-- the two allocated lists never overflow their `mem_size` entries -/
+theorem wb_bound {g : Gc} (inv : Inv g) : g.cur.length + 1 ≤ g.mem.size ∧ g.oth = [] := by
+  obtain ⟨fl, il⟩ := inv
+  exact ⟨by have := il.count; omega, il.oth_empty⟩
+
+/-- allocating `k` reference-free objects -/
+def allocAll (g : Gc) : List Obj → Option Gc
+  | [] => some g
+  | o :: os => match g.alloc o with
+    | none => none
+    | some (g', _) => allocAll g' os
+
+/-- **bounded live data runs forever in a fixed heap**: whenever the allocated count plus
+`k` fits, the next `k` allocations succeed (in particular right after a collection,
+where the allocated count is the live count by `collect_exact`) -/
+theorem bounded_live_runs_forever {g : Gc} (inv : Inv g) (os : List Obj)
+    (hs : ∀ o ∈ os, o.refs = [] ∧ g.mem.okObj o = true)
+    (hfit : g.cur.length + os.length + 1 ≤ g.mem.size) : (allocAll g os).isSome = true := by
+  induction os generalizing g with
+  | nil => rfl
+  | cons o os ih =>
+    simp only [allocAll]
+    cases ha : g.alloc o with
+    | none =>
+      have := (oom_iff_full o inv).mp ha
+      simp at hfit; omega
+    | some r =>
+      obtain ⟨g1, loc⟩ := r
+      obtain ⟨fl, il⟩ := inv
+      have ho := (hs o (by simp)).2
+      obtain ⟨fl', hfl, i', hnone, h0, hmem, hcur⟩ := inv_alloc il ho ha
+      simp only
+      apply ih ⟨fl', i'⟩
+      · intro o' ho'
+        have := hs o' (List.mem_cons_of_mem _ ho')
+        refine ⟨this.1, ?_⟩
+        rw [hmem]; exact okObj_alloc hnone _ this.2
+      · rw [hcur, hmem]; simp at hfit ⊢; omega
+
+/-! ### non-vacuity: the hypotheses are met by concrete, non-trivial states -/
+
+def exPrefix : List Op :=
+  [.alloc (.vec [0, 0]), .alloc (.int 7), .setVec 1 0 2, .alloc (.strRef 0), .alloc (.vecRef 1)]
+def exCollect : Op := .collect [.addr 4, .stk 3, .unknown] 1
+
+/-- a concrete non-trivial state meeting the hypotheses of `collect_exact`/`collect_defined` -/
+example : Inv ((Gc.new 6).exec exPrefix) ∧ ((Gc.new 6).exec exPrefix).wellTyped exCollect = true ∧
+    ((Gc.new 6).exec exPrefix).cur = [1, 2, 3, 4] :=
+  ⟨inv_history 6 (by decide) _, by decide +kernel, by decide +kernel⟩
+example : Inv ((Gc.new 6).exec (exPrefix ++ [exCollect, .alloc (.func 1 9)])) := inv_history 6 (by decide) _
+example : (Gc.new 3).alloc (.int 1) ≠ none := by decide +kernel
+example : ((Gc.new 2).alloc (.int 1)).bind (fun r => r.1.alloc (.int 2)) = none := by decide +kernel
+
 end Never.C09
